@@ -39,11 +39,12 @@ FIELDS = [
     {"name": "q[0]", "kind": "bit", "w": 2, "signed": False, "rand": True, "init": 0},    # element of a fixed-size random list
     # enum-typed constants: declared non-random / declared random inside the non-random sub-object
     {"name": "e", "kind": "enum", "w": 32, "signed": True, "rand": False, "enum": "E1", "dom": [0, 1, 5], "init": 1},
+    {"name": "g", "kind": "int", "w": 3, "signed": True, "rand": False, "init": -3},      # a signed constant
     {"name": "s2.z", "kind": "enum", "w": 32, "signed": True, "rand": True, "enum": "E1", "dom": [0, 1, 5], "init": 5},
 ]
 ENUMS = {"E1": {"int": True, "members": [["A", 0], ["B", 1], ["C", 5]]}}
 TOGGLE = ["a", "b", "d", "s1.x"]
-NONRAND_TOGGLE = ["c", "e"]      # rand_mode assigned on fields DECLARED non-random: must not make them random
+NONRAND_TOGGLE = ["c", "e", "g"]      # rand_mode assigned on fields DECLARED non-random: must not make them random
 ASSIGNABLE = [f for f in FIELDS]
 
 CLASS_SRC = '''
@@ -71,6 +72,7 @@ class T(object):
         self.c = vsc.bit_t(3)
         self.d = vsc.rand_bit_t(2)
         self.e = vsc.enum_t(E1)
+        self.g = vsc.int_t(3)
         self.s1 = vsc.rand_attr(S1())
         self.s2 = vsc.attr(S2())
         self.nl = vsc.list_t(vsc.bit_t(3))
@@ -104,6 +106,10 @@ def programs(d):
         extra.append(["fe_rl"])          # foreach element of the random list: it in the mutable rangelist
     if d.chance(45):
         extra.append(["fe_nl", d.choice(["a", "d"])])   # foreach index of the NON-random list: field != nl[i]
+    if d.chance(40):
+        # if/else inside foreach whose condition compares the signed b (a constant whenever its rand_mode is off) or the
+        # constant c with an unsigned literal wider than the field: folded before solving when no operand is random
+        extra.append(["fe_if", d.choice(["g", "g", "b", "c"]), d.choice(["<", "<=", ">", ">=", "=="]), d.randint(0, 12)])
     return {"stmts": stmts, "extra": extra}
 
 
@@ -120,6 +126,12 @@ def source(prog):
         elif e[0] == "fe_rl":
             lines.append("        with vsc.foreach(self.q) as it:")
             lines.append("            it.inside(self.rl)")
+        elif e[0] == "fe_if":
+            lines.append("        with vsc.foreach(self.q, idx=True) as i:")
+            lines.append("            with vsc.if_then(self.%s %s vsc.unsigned(%d, 6)):" % (e[1], e[2], e[3]))
+            lines.append("                self.q[i] < 2")
+            lines.append("            with vsc.else_then:")
+            lines.append("                self.q[i] >= 2")
         else:
             lines.append("        with vsc.foreach(self.nl, idx=True) as i:")
             lines.append("            self.%s != self.nl[i]" % e[1])
@@ -190,6 +202,10 @@ class Session:
                 out.append(["expr", ["inl", ["f", e[1]], "nl"]])     # elements are bit_t(3) fields, not literals
             elif e[0] == "fe_rl":
                 out.append(["expr", ["in", ["f", "q[0]"], items]])
+            elif e[0] == "fe_if":
+                out.append(["if", [[["bin", e[2], ["f", e[1]], ["ulit", e[3], 6]],
+                                    [["expr", ["bin", "<", ["f", "q[0]"], ["lit", 2]]]]]],
+                            [["expr", ["bin", ">=", ["f", "q[0]"], ["lit", 2]]]]])
             else:
                 for i in range(len(self.nl)):
                     out.append(["expr", ["bin", "!=", ["f", e[1]], ["el", "nl", ["lit", i], None]]])
